@@ -463,6 +463,10 @@ Definition tf_op (F : ftable) (a : nat) (s t : list nat) : lohg nat nat :=
          | None => lohg_empty
          end
   | 2 => discrete_io fs ft
+  | 4 => (* edge-less spider merging all wires of one label: boundary nodes are repeated *)
+      let labs := fold_left (fun acc x => if existsb (Nat.eqb x) acc then acc else app acc [x]) (app fs ft) [] in
+      let idx := fun l => match index_of l labs with Some i => i | None => 0 end in
+      mkLOHG (map idx fs) (map idx ft) (lhg_discrete nat labs)
   | _ => if list_eqb Nat.eqb fs ft then lohg_identity nat fs else discrete_io fs ft
   end.
 Definition tf_functor (F : ftable) : lfunctor nat nat nat nat := mkLF (tf_obj F) (tf_op F).
@@ -664,8 +668,22 @@ Definition all_tables : list entry :=
   app tbl_array (app tbl_ff (app tbl_ic (app tbl_strict (app tbl_graph (app tbl_arrow (app tbl_lax tbl_term)))))).
 
 (* a case is (op arg ...); the id is handled by the driver *)
+(* a case is (op [backend] arg ...); operations that do not depend on the back-end accept and ignore
+   a leading back-end symbol (the harness then runs the generic Rust code on that ArrayKind) *)
 Definition run_case (c : sx) : sx :=
   match c with
-  | L (Sy op :: args) => match lookup op all_tables with Some f => f args | None => bad end
+  | L (Sy op :: args) =>
+      match lookup op all_tables with
+      | Some f =>
+          match f args with
+          | Sy "badcase" =>
+              match args with
+              | Sy b :: rest => if String.eqb b "vec" || String.eqb b "adv" then f rest else bad
+              | _ => bad
+              end
+          | r => r
+          end
+      | None => bad
+      end
   | _ => bad
   end.
